@@ -60,6 +60,11 @@ var c07Reqs = []c07Req{
 	// subscriptions on the shared schema (graphql.Subscribe: the set-up path with
 	// its own field collection and argument coercion, the forwarding goroutine and
 	// one nested execution per event); always issued as "sub" operations
+	// default-resolved struct sources of a Go type that this run's world created:
+	// whatever the library memoises per source type is first used here, by
+	// several clients, field name by field name (gated resolvers in between)
+	{"dyn-struct-1", `{ plainDyn { name } x1 p2: plainDyn { n } x2 p3: plainDyn { tag } plainA { name } }`, nil},
+	{"dyn-struct-2", `{ plainDyn { tag } x2 p2: plainDyn { name } x1 p3: plainDyn { n } plainTagged { n tag } }`, nil},
 	{"sub-events", `subscription { events(k:BETA, n:1) { id kind nodes(n:2) { id kind ... on A { aOnly } } u { ... on B { bOnly } ... on A { kind } } } }`, nil},
 	{"sub-vars", `subscription($k:Kind, $st:Stamp, $n:Int){ events(k:$k, st:$st, n:$n) { id kind nn { e } peer { id kind } } }`, map[string]interface{}{"k": "GAMMA", "st": "s1", "n": 1}},
 	{"sub-ticks", `subscription { ticks { s e le } }`, nil},
@@ -98,6 +103,8 @@ type C07Scn struct {
 	Clients    []C07Client       `json:"clients"`
 	MaxEntries int               `json:"max_entries"`
 	Normalize  bool              `json:"normalize"`
+	// ForeignEnum: resolvers return enum values in a Go type other than the declared one
+	ForeignEnum bool `json:"foreign_enum,omitempty"`
 	Park       []string          `json:"park"`
 	Sticky     int               `json:"stickiness"`
 }
@@ -161,15 +168,16 @@ func (p c07) Gen(seed uint64, enum int, tier string) json.RawMessage {
 			work = append(work, len(c07Reqs)+len(s.Gen)-1)
 		}
 	}
-	kinds := []string{"do", "do", "cache", "cache", "plan", "plan", "validate", "reset"}
+	kinds := []string{"do", "do", "do", "cache", "cache", "cache", "plan", "plan", "plan", "validate", "reset", "stats"}
 	maxOps := 4
+	s.ForeignEnum = r.Chance(25)
 	// sometimes the clients are spread over two schemas of the same shape (a
 	// rebuilt schema: other pointer) that share the cache
 	twoWorlds := r.Chance(25)
 	switch flavour := r.Intn(10); {
 	case flavour < 2:
 		// cache hammer: several keys kept warm and hit by everybody
-		kinds = []string{"cache", "cache", "cache", "cache", "cache", "cache", "cache", "reset"}
+		kinds = []string{"cache", "cache", "cache", "cache", "cache", "cache", "cache", "reset", "stats", "stats"}
 		s.MaxEntries = 3
 		maxOps = 6
 		work = work[:0]
@@ -194,7 +202,7 @@ func (p c07) Gen(seed uint64, enum int, tier string) json.RawMessage {
 			if c07ReqAt(&s, req).Name == "lazy-plan-panic" {
 				kind = "plan" // this document never passes validation's literal check unharmed
 			}
-			if strings.HasPrefix(c07ReqAt(&s, req).Query, "subscription") && kind != "validate" && kind != "reset" {
+			if strings.HasPrefix(c07ReqAt(&s, req).Query, "subscription") && kind != "validate" && kind != "reset" && kind != "stats" {
 				kind = "sub"
 			}
 			cl.Ops = append(cl.Ops, C07Op{Kind: kind, Req: req})
@@ -273,9 +281,9 @@ func dryPaths(query string, vars map[string]interface{}, variant uint64) []strin
 	return p
 }
 
-func c07Solo(rq c07Req, op C07Op, variant uint64, world int, faults map[string]string) string {
+func c07Solo(rq c07Req, op C07Op, variant uint64, world int, faults map[string]string, foreignEnum bool) string {
 	w := NewWorld([]string{"A", "B"}[world])
-	rc := &ReqCtx{Task: "solo", W: w, Variant: variant, Faults: faults, RootTok: Tok{T: c07Root(rq.Query)}}
+	rc := &ReqCtx{Task: "solo", W: w, Variant: variant, Faults: faults, ForeignEnum: foreignEnum, RootTok: Tok{T: c07Root(rq.Query)}}
 	ctx := WithReq(context.Background(), rc)
 	switch op.Kind {
 	case "validate":
@@ -287,6 +295,8 @@ func c07Solo(rq c07Req, op C07Op, variant uint64, world int, faults map[string]s
 		return string(b)
 	case "reset":
 		return "reset"
+	case "stats":
+		return "stats"
 	case "sub":
 		w.SubSource = c07SubSource
 		return c07Subscribe(w, rq, ctx)
@@ -320,7 +330,7 @@ func (c07) Run(t TestingT, scn json.RawMessage, tape *Tape) *Outcome {
 	solo := map[string]string{}
 	for ci, cl := range sc.Clients {
 		for oi, op := range cl.Ops {
-			solo[fmt.Sprintf("c%d.%d", ci+1, oi)] = c07Solo(c07ReqAt(&sc, op.Req), op, cl.Variant, cl.World, sc.Faults)
+			solo[fmt.Sprintf("c%d.%d", ci+1, oi)] = c07Solo(c07ReqAt(&sc, op.Req), op, cl.Variant, cl.World, sc.Faults, sc.ForeignEnum)
 		}
 	}
 	s := NewSim(tape)
@@ -426,7 +436,7 @@ func (c07) Run(t TestingT, scn json.RawMessage, tape *Tape) *Outcome {
 				for oi, op := range cl.Ops {
 					rq := c07ReqAt(&sc, op.Req)
 					s.Gate(name, "client:op", fmt.Sprintf("%d %s %s", oi, op.Kind, rq.Name))
-					rc := &ReqCtx{Task: name, Req: oi, W: w, Variant: cl.Variant, Faults: sc.Faults, Gates: true, RootTok: Tok{T: c07Root(rq.Query)}}
+					rc := &ReqCtx{Task: name, Req: oi, W: w, Variant: cl.Variant, Faults: sc.Faults, ForeignEnum: sc.ForeignEnum, Gates: true, RootTok: Tok{T: c07Root(rq.Query)}}
 					ctx := WithReq(WithTask(context.Background(), name), rc)
 					key := fmt.Sprintf("%s.%d", name, oi)
 					switch op.Kind {
@@ -458,6 +468,10 @@ func (c07) Run(t TestingT, scn json.RawMessage, tape *Tape) *Outcome {
 					case "reset":
 						cache.Reset()
 						tc.Out[key] = "reset"
+					case "stats":
+						// a metrics scrape next to the request path
+						cache.HitsMisses()
+						tc.Out[key] = "stats"
 					case "sub":
 						tc.Out[key] = c07Subscribe(w, rq, ctx)
 						tc.Out["fired:subscription-drained"] = fmt.Sprint(atoiOr0(tc.Out["fired:subscription-drained"]) + 1)
